@@ -893,7 +893,7 @@ def run(tier, seed):
     from .. import extra
     from .. import extra as _extra
     _more = [_extra.suite_second_instance_policies(tier, seed), _extra.suite_served_is_signed(tier, seed)]
-    return list(list(suites) + [extra.suite_replay_after_removal(tier, seed)]) + _more
+    return list(list(suites) + [extra.suite_replay_after_removal(tier, seed), extra.suite_forged_concurrent(tier, seed)]) + _more
 
 def replay(payload):
     v = payload["violation"]
